@@ -37,7 +37,10 @@ def build(container, field, tagging, gk, inner_idx, override, mapped):
     default_map = {}
     override_map = None
     if mapped:
-        if override:
+        if override == 'partial':
+            default_map[g] = tin              # known to the default map only; the caller's map covers other values
+            override_map = {gov_value(gk, 77): univ.Boolean()}
+        elif override:
             default_map[g] = other            # the default map is wrong on purpose: the caller's map must win
             override_map = {g: tin}
         else:
@@ -117,7 +120,7 @@ def run(ctx):
     for container, field, tagging, gk in itertools.product(('seq', 'set'), ('any', 'seqof', 'setof'),
                                                            ('untagged', 'implicit', 'explicit'), ('int', 'oid')):
         for inner_idx in range(len(INNER)):
-            for override, mapped in ((False, True), (True, True), (False, False)):
+            for override, mapped in ((False, True), (True, True), ('partial', True), (False, False)):
                 if ctx.quick and gk == 'oid' and (container == 'set' or field == 'setof'):
                     continue
                 if container == 'set' and tagging == 'untagged' and field == 'any':
@@ -159,7 +162,7 @@ def run(ctx):
                 ctx.keys.add(tuple(sorted(t['meta'].items())) + (e['codec'], e['def'], e['resolve']))
         ctx.sample({'case': traces[0]['meta'], 'event': {k: traces[0]['ev'][0][k] for k in ('codec', 'def', 'resolved', 'st', 'fields', 'wire')}})
     ctx.rule = ('containers {SEQUENCE, SET} x field {ANY, SEQUENCE OF ANY, SET OF ANY} x ANY tagging {untagged, implicit, explicit} x '
-                'governor {INTEGER, OID} x 8 inner types (4 constructed) x {default map, caller override over a wrong default, '
+                'governor {INTEGER, OID} x 8 inner types (4 constructed) x {default map, caller override over a wrong default, caller map covering other values only, '
                 'unmapped} x codecs {BER def, BER indef, CER, DER} x resolution {on, off}; each encode+decode is one event judged '
                 'by JudgeOpen in spec/Trace_Codec.tla (typed inner value = Norm under the mapped type; raw octets = the '
                 'reference encoding of the inner value in the same codec and length mode)')
